@@ -107,8 +107,11 @@ def replay_xh(fn, cex):
     if cex is None or '__unparsed__' in cex:
         return {'reproduced': False, 'detail': 'counterexample arguments could not be parsed: %r' % (cex,)}
     pre_end = leading_assert_end(fn)
+    from lib.symx import PathAbort
     try:
         fn(**cex)
+    except PathAbort:
+        return {'reproduced': False, 'detail': 'precondition (assume) not met'}
     except AssertionError:
         tb = traceback.extract_tb(sys.exc_info()[2])
         mine = [f for f in tb if f.name == fn.__name__]
